@@ -147,13 +147,18 @@ def outputs(sim, df=None):
                        str(r["event"]), str(r["resource"])])
     tasks = {}
     fin = sim.cluster._clusters["default"]["tasks"]["finished"]
+    finflag = {t.id: bool(v) for t, v in fin.items()}
     order = []
-    for t in fin:
-        order.append(t.id)
-        tasks[t.id] = {"ast": fr(t.ast), "aft": fr(t.aft), "est": fr(t.est),
-                       "eft": fr(t.eft), "offset": fr(t.workflow_offset),
-                       "finished": bool(fin[t])}
-    return {"rows": rows, "events": ev, "tasks": tasks, "task_order": order}
+    # the task table as the user gets it (Simulation._generate_final_task_data)
+    tdf = sim._generate_final_task_data()
+    for tid, r in tdf.iterrows():
+        order.append(str(tid))
+        tasks[str(tid)] = {"ast": fr(r["ast"]), "aft": fr(r["aft"]), "est": fr(r["est"]),
+                           "eft": fr(r["eft"]), "offset": fr(r["workflow_offset"]),
+                           "finished": finflag.get(str(tid), False)}
+    # and the truth held on the task objects
+    truth = {t.id: {"ast": fr(t.ast), "aft": fr(t.aft)} for t in fin}
+    return {"rows": rows, "events": ev, "tasks": tasks, "task_order": order, "task_truth": truth}
 
 
 def run_spec(spec, listeners=(), until=None, resume=None, max_steps=None, env=None):
